@@ -712,7 +712,7 @@ def run(chk):
 
     tick('merge/estimate oracles')
     if not quick:
-        chk.leanchecker(['PeptVerif.Props.C14', 'PeptVerif.Lemmas.Isotope', 'PeptVerif.Model.Isotope', 'PeptVerif.Generated.IsotopesC14'])
+        chk.leanchecker(['PeptVerif.Props.C14', 'PeptVerif.Lemmas.Isotope', 'PeptVerif.Lemmas.IsotopeMultinomial', 'PeptVerif.Model.Isotope', 'PeptVerif.Generated.IsotopesC14'])
     return chk.finish(classify)
 
 
